@@ -663,6 +663,19 @@ class XsdElement(XsdComponent, ParticleMixin,
             xsd_type = self.type
         else:
             xsd_type = self.get_alternative_type(obj, inherited)
+            if xsd_type is not self.type and xsd_type not in self.xsi_types:
+                # A type alternative can add children as a xsi:type does: the XSD
+                # elements that collect keys/keyrefs are augmented in the same way.
+                if xsd_type.has_complex_content():
+                    xpath_element = XPathElement(self.name, xsd_type)
+                    for identity in self.maps.identities.values():
+                        try:
+                            identity.update_elements(xpath_element)
+                        except TypeError as e:
+                            counter = context.identities.get(identity)
+                            if counter is not None and counter.enabled:
+                                context.validation_error(validation, self, e, obj)
+                self.xsi_types.add(xsd_type)
 
         if nm.XSI_TYPE in obj.attrib and self.schema.meta_schema is not None:
             # Meta-schema elements ignore xsi:type (issue #350)
